@@ -2695,8 +2695,11 @@ int KSI_ExtendResp_verifyWithRequest(const KSI_ExtendResp *resp, const KSI_Exten
 		goto cleanup;
 	}
 
-	if (!KSI_Integer_equalsUInt(resp->status, 0)) {
-		KSI_pushError(resp->ctx, res = KSI_convertExtenderStatusCode(resp->status), KSI_Utf8String_cstr(resp->errorMsg));
+	/* A missing status element counts as status 0 (see KSI_convertExtenderStatusCode): the remaining
+	 * checks must still be performed in that case. */
+	res = KSI_convertExtenderStatusCode(resp->status);
+	if (res != KSI_OK) {
+		KSI_pushError(resp->ctx, res, KSI_Utf8String_cstr(resp->errorMsg));
 		goto cleanup;
 	}
 
